@@ -95,13 +95,20 @@ impl<C: Chi> Subst for Clause<C> {
     ) -> Clause<C> {
         let mut prod_subst_reduced: Vec<(Identifier, Term<Prd>)> = Vec::new();
         let mut cons_subst_reduced: Vec<(Identifier, Term<Cns>)> = Vec::new();
+        // a binding of the clause only shadows the substitution for variables of its own kind
+        let binds = |var: &Identifier, chi: Chirality| {
+            self.context
+                .bindings
+                .iter()
+                .any(|binding| binding.chi == chi && binding.var == *var)
+        };
         for subst in prod_subst {
-            if !self.context.vars().contains(&subst.0) {
+            if !binds(&subst.0, Chirality::Prd) {
                 prod_subst_reduced.push(subst.clone());
             }
         }
         for subst in cons_subst {
-            if !self.context.vars().contains(&subst.0) {
+            if !binds(&subst.0, Chirality::Cns) {
                 cons_subst_reduced.push(subst.clone());
             }
         }
